@@ -1425,6 +1425,20 @@ pub fn bound_names(text: &str) -> Option<(Vec<String>, Vec<String>, Vec<String>)
     let shapes: Vec<String> = b.0.iter().map(|x| shape_of(&x.1)).collect();
     Some((params, lets, shapes))
 }
+/// number of loops and of closures in a function body (what the ordinals of `loop K` / `closure K` count)
+pub fn count_loops_closures(text: &str) -> Option<(usize, usize)> {
+    let (_, block) = parse_any_fn(text)?;
+    struct Cnt(usize, usize);
+    impl<'ast> visit::Visit<'ast> for Cnt {
+        fn visit_expr_for_loop(&mut self, f: &'ast ExprForLoop) { self.0 += 1; visit::visit_expr_for_loop(self, f); }
+        fn visit_expr_while(&mut self, f: &'ast ExprWhile) { self.0 += 1; visit::visit_expr_while(self, f); }
+        fn visit_expr_loop(&mut self, f: &'ast ExprLoop) { self.0 += 1; visit::visit_expr_loop(self, f); }
+        fn visit_expr_closure(&mut self, c: &'ast ExprClosure) { self.1 += 1; visit::visit_expr_closure(self, c); }
+    }
+    let mut c = Cnt(0, 0);
+    if let Some(b) = &block { visit::Visit::visit_block(&mut c, b); }
+    Some((c.0, c.1))
+}
 struct PatNames(Vec<String>);
 impl<'ast> visit::Visit<'ast> for PatNames {
     fn visit_pat_ident(&mut self, p: &'ast PatIdent) {
@@ -1444,6 +1458,13 @@ pub fn renamed_spec(fs: &FnSpec, text: &str, pinned: Option<&serde_json::Value>,
     let get = |k: &str| -> Vec<String> { pinned.get(k).and_then(|v| v.as_array()).map(|a| a.iter().filter_map(|x| x.as_str().map(|s| s.to_string())).collect()).unwrap_or_default() };
     let (pp, pl, ps_) = (get("params"), get("lets"), get("shapes"));
     let lenient = LENIENT.load(std::sync::atomic::Ordering::Relaxed);
+    // loops and closures are addressed by ordinal and need their own annotations: a body with another number of
+    // them than the contract was written for has lost its proof structure (a NEW loop has no invariant, a new
+    // closure no specification) — what then fails is undecided unless a witness replays
+    if let (Some((nl, nc)), Some(pl_), Some(pc_)) = (count_loops_closures(text), pinned.get("n_loops").and_then(|v| v.as_u64()), pinned.get("n_closures").and_then(|v| v.as_u64())) {
+        if nl as u64 != pl_ { lost(format!("{} has {} loop(s), its contract was written for {}", fs.key, nl, pl_)); }
+        if nc as u64 != pc_ { lost(format!("{} has {} closure(s), its contract was written for {}", fs.key, nc, pc_)); }
+    }
     let mut map: BTreeMap<String, String> = BTreeMap::new();
     let mut aligned = false;
     let mut consistent = true;
@@ -1528,6 +1549,25 @@ pub fn renamed_spec(fs: &FnSpec, text: &str, pinned: Option<&serde_json::Value>,
     let current: BTreeSet<&String> = cp.iter().chain(cl.iter()).collect();
     let gone: BTreeSet<String> = pp.iter().chain(pl.iter()).filter(|o| !map.contains_key(*o) && !current.contains(o)).cloned().collect();
     let mentions_gone = |t: &str| -> Option<String> { words(t).into_iter().find(|(w, field)| !field && gone.contains(w)).map(|(w, _)| w) };
+    // a `let` whose initialiser was rewritten while a proof hint or an invariant speaks about that local: the
+    // annotation may be stale (it was written against the old computation) — same treatment as a lost anchor
+    if ps_.len() == pl.len() && cs_.len() == cl.len() {
+        let ann: Vec<&String> = fs.hints.iter().flat_map(|(w, _, t)| vec![w, t]).chain(fs.loops.values().flat_map(|l| l.invs.iter().map(|c| &c.text))).collect();
+        for (i, o) in pl.iter().enumerate() {
+            if ps_[i].is_empty() { continue; }
+            let n = map.get(o).cloned().unwrap_or_else(|| o.clone());
+            // the current binding of that name with a recorded shape (first one that matches the name)
+            // the k-th binding of that name then is the k-th binding of its (renamed) name now
+            let k = pl[..i].iter().filter(|x| *x == o).count();
+            let cur_shape = cl.iter().enumerate().filter(|(_, x)| **x == n).nth(k).map(|(j, _)| cs_[j].clone());
+            if let Some(csh) = cur_shape {
+                // compare shapes with the renaming applied to nothing: shapes already abstract from local names
+                if csh != ps_[i] && ann.iter().any(|t| words(t).iter().any(|(w, f)| !f && w == o)) {
+                    lost(format!("the initialiser of `{}` in {} was rewritten and proof annotations speak about it", n, fs.key));
+                }
+            }
+        }
+    }
     if map.is_empty() && gone.is_empty() { return fs.clone(); }
     if !map.is_empty() { *stats.entry(if aligned { "E0.renamed_local_aligned" } else { "E0.renamed_local" }.to_string()).or_insert(0) += map.len(); }
     if aligned && !map.is_empty() {
